@@ -31,14 +31,15 @@ def fit_scalar(y: torch.Tensor, r: torch.Tensor) -> Tuple[Optional[float], float
     is max|y|)."""
     y64 = y.detach().to(torch.float64).reshape(-1)
     r64 = r.detach().to(torch.float64).reshape(-1)
-    rr = float(torch.dot(r64, r64))
     rmax = float(r64.abs().max()) if r64.numel() else 0.0
-    if rr == 0.0 or r64.numel() == 0:
+    if rmax == 0.0 or r64.numel() == 0:
         return None, float(y64.abs().max()) if y64.numel() else 0.0, rmax
-    s = float(torch.dot(y64, r64)) / rr
-    ymax = float(y64.abs().max())
-    res = float((y64 - s * r64).abs().max())
-    denom = max(ymax, abs(s) * rmax, 1e-300)
+    # work on r / max|r| (and y / max|r|): dot(r, r) of values around 1e-200 would underflow to 0
+    rn, yn = r64 / rmax, y64 / rmax
+    s = float(torch.dot(yn, rn)) / float(torch.dot(rn, rn))
+    ymax = float(yn.abs().max())
+    res = float((yn - s * rn).abs().max())
+    denom = max(ymax, abs(s), 1e-300)
     return s, res / denom, rmax
 
 
